@@ -68,7 +68,7 @@ def snapshot(sim, node):
             "class": type(app).__name__,
             "application_id": app.application_id,
             "is_ready": bool(app.is_ready.is_set()),
-            "answer_waiting": sorted(app._answer_waiting.keys()),
+            "answer_waiting": sorted(app._answer_waiting.keys(), key=repr),
         }
         if hasattr(app, "_thread_slots"):
             a["thread_slots"] = app._thread_slots.qsize()
